@@ -35,7 +35,7 @@ pub struct PoolEntry {
     pub fq: &'static str,
 }
 
-pub const POOL: [PoolEntry; 19] = [
+pub const POOL: [PoolEntry; 21] = [
     PoolEntry { name: "counter ca", kind: RType::Counter, fq: "ca" },
     PoolEntry { name: "counter cb{x=1}", kind: RType::Counter, fq: "cb" },
     PoolEntry { name: "gauge g", kind: RType::Gauge, fq: "g" },
@@ -61,11 +61,15 @@ pub const POOL: [PoolEntry; 19] = [
     PoolEntry { name: "gauge eqb (help 'same help')", kind: RType::Gauge, fq: "eqb" },
     // a large family (70 children) whose first label has values in strict-prefix relation
     PoolEntry { name: "int gauge vec big[a,b] 70 children, a in {'', x, db, db1, db10}", kind: RType::Gauge, fq: "big" },
+    // a custom two-descriptor collector whose collect() returns its families in the reverse order of desc(),
+    // and a library counter contributing to one of its names
+    PoolEntry { name: "custom bundle [gauge bundle_g, counter ev{shard=1}] collecting in reverse order", kind: RType::Counter, fq: "ev" },
+    PoolEntry { name: "counter ev{shard=2}", kind: RType::Counter, fq: "ev" },
 ];
 
 /// Pool members used by C07 (everything except the same-name/different-kind collectors).
 pub fn c07_members() -> Vec<usize> {
-    (0..POOL.len()).filter(|i| !(9..=11).contains(i)).collect()
+    (0..POOL.len()).filter(|i| !(9..=11).contains(i) && *i != 19).collect()
 }
 
 /// Fresh real collector `i` (with samples) plus the families it contributes (reference form).
@@ -173,6 +177,30 @@ pub fn make(i: usize) -> (Box<dyn Collector>, Vec<RFamily>) {
             }
             (Box::new(v), vec![RFamily { name: "big".into(), help: "help big".into(), typ: RType::Gauge, metrics: ms }])
         }
+        19 => {
+            struct Bundle(Vec<Desc>, Vec<RFamily>);
+            impl Collector for Bundle {
+                fn desc(&self) -> Vec<&Desc> {
+                    self.0.iter().collect()
+                }
+                fn collect(&self) -> Vec<MetricFamily> {
+                    self.1.iter().rev().map(|f| f.to_proto()).collect()
+                }
+            }
+            let mut c = HashMap::new();
+            c.insert("shard".to_string(), "1".to_string());
+            let descs = vec![Desc::new("bundle_g".into(), "help bundle_g".into(), vec![], HashMap::new()).unwrap(), Desc::new("ev".into(), "help ev".into(), vec![], c).unwrap()];
+            let fams = vec![
+                RFamily { name: "bundle_g".into(), help: "help bundle_g".into(), typ: RType::Gauge, metrics: vec![RMetric { gauge: Some(2.0), ..Default::default() }] },
+                RFamily { name: "ev".into(), help: "help ev".into(), typ: RType::Counter, metrics: vec![RMetric { labels: lbl(&[("shard", "1")]), counter: Some(11.0), ..Default::default() }] },
+            ];
+            (Box::new(Bundle(descs, fams.clone())), fams)
+        }
+        20 => {
+            let c = Counter::with_opts(Opts::new("ev", "help ev").const_label("shard", "2")).unwrap();
+            c.inc_by(12.0);
+            (Box::new(c), one("ev", "help ev", RType::Counter, RMetric { labels: lbl(&[("shard", "2")]), counter: Some(12.0), ..Default::default() }))
+        }
         _ => {
             // an IntCounterVec without children: registered but contributes no family
             let v = IntCounterVec::new(Opts::new("empty", "help empty"), &["l"]).unwrap();
@@ -230,9 +258,15 @@ pub fn reference_gather(members: &[usize], cfg: &RegConfig) -> Vec<RFamily> {
         .collect()
 }
 
+/// Number of (subset, registration order, label order) combinations for which not every collect order could be
+/// observed (the registry iterated deterministically).
+pub static UNREALISED: std::sync::atomic::AtomicU64 = std::sync::atomic::AtomicU64::new(0);
+
 pub struct GatherRun {
     /// gather() after the first registered member has been unregistered again
     pub after_unregister: Vec<MetricFamily>,
+    /// set when unregistering that (registered) member failed
+    pub unregister_error: Option<String>,
     pub unregistered: usize,
     pub members: Vec<usize>,
     pub reg_order: Vec<usize>,
@@ -256,8 +290,18 @@ pub fn enumerate_orders(members: &[usize], cfg: &RegConfig, all_reg_orders: bool
         for lo in &label_orders {
             let mut seen: BTreeSet<Vec<usize>> = BTreeSet::new();
             let mut tries = 0;
+            let mut since_new = 0;
             while seen.len() < want.len() {
                 tries += 1;
+                since_new += 1;
+                // If 3000 fresh registries in a row show no new collect order, the registry does not iterate in a
+                // per-instance random order (for m <= 4 a uniformly random order would have been seen with
+                // probability 1 - 24*(23/24)^3000): the orders observed so far are all there are for this
+                // registration order, and every registration order is enumerated by the caller.
+                if since_new > 3000 {
+                    UNREALISED.fetch_add(1, std::sync::atomic::Ordering::Relaxed);
+                    break;
+                }
                 if tries > 200_000 {
                     return Err(format!("could not realise all {} collect orders for {:?} after {} registries", want.len(), members, tries));
                 }
@@ -276,12 +320,13 @@ pub fn enumerate_orders(members: &[usize], cfg: &RegConfig, all_reg_orders: bool
                 *gathers += 1;
                 let order = log.lock().unwrap().clone();
                 if seen.insert(order.clone()) {
+                    since_new = 0;
                     let first = members[ro[0]];
-                    let after_unregister = match reg.unregister(make(first).0) {
-                        Ok(()) => crate::watchdog::case(|| format!("gather after unregister of {:?} under {:?}", members, cfg), || reg.gather()),
-                        Err(e) => return Err(format!("unregister {}: {}", POOL[first].name, e)),
+                    let (after_unregister, unregister_error) = match reg.unregister(make(first).0) {
+                        Ok(()) => (crate::watchdog::case(|| format!("gather after unregister of {:?} under {:?}", members, cfg), || reg.gather()), None),
+                        Err(e) => (vec![], Some(format!("unregister({}) of a registered collector failed: {}", POOL[first].name, e))),
                     };
-                    visit(&GatherRun { after_unregister, unregistered: first, members: members.to_vec(), reg_order: ro.iter().map(|&p| members[p]).collect(), collect_order: order, label_order: lo.clone(), cfg: cfg.clone(), result });
+                    visit(&GatherRun { after_unregister, unregister_error, unregistered: first, members: members.to_vec(), reg_order: ro.iter().map(|&p| members[p]).collect(), collect_order: order, label_order: lo.clone(), cfg: cfg.clone(), result });
                 }
             }
         }
